@@ -433,8 +433,10 @@ impl<'a> Interpreter<'a> {
 
                             match callable {
                                 RsCallable::Function(func) => {
-                                    let arg_values = self.resolve_args(args)?;
-                                    stack.push_val(func(value, arg_values));
+                                    stack.push_val(match self.resolve_args(args) {
+                                        Ok(arg_values) => func(value, arg_values),
+                                        Err(err) => CelValue::from_err(err),
+                                    });
                                 }
                                 RsCallable::Macro(macro_) => {
                                     stack.push_val(self.call_macro(&value, &args, macro_)?);
@@ -451,8 +453,10 @@ impl<'a> Interpreter<'a> {
                             match value {
                                 CelValue::Ident(func_name) => {
                                     if let Some(func) = self.get_func_by_name(&func_name) {
-                                        let arg_values = self.resolve_args(args)?;
-                                        stack.push_val(func(CelValue::from_null(), arg_values));
+                                        stack.push_val(match self.resolve_args(args) {
+                                            Ok(arg_values) => func(CelValue::from_null(), arg_values),
+                                            Err(err) => CelValue::from_err(err),
+                                        });
                                     } else if let Some(macro_) = self.get_macro_by_name(&func_name)
                                     {
                                         stack.push_val(self.call_macro(
@@ -463,8 +467,10 @@ impl<'a> Interpreter<'a> {
                                     } else if let Some(CelValue::Type(type_name)) =
                                         self.get_type_by_name(&func_name)
                                     {
-                                        let arg_values = self.resolve_args(args)?;
-                                        stack.push_val(construct_type(type_name, arg_values));
+                                        stack.push_val(match self.resolve_args(args) {
+                                            Ok(arg_values) => construct_type(type_name, arg_values),
+                                            Err(err) => CelValue::from_err(err),
+                                        });
                                     } else {
                                         let err = CelError::runtime(&format!(
                                             "{} is not callable",
@@ -555,6 +561,9 @@ impl<'a> Interpreter<'a> {
         Ok(res)
     }
 
+    // A failing argument makes the call itself fail with that error -- as an error value
+    // (see the call sites), so that `a || b`, coalesce() and has() treat a failure inside a
+    // call argument like any other failing operand instead of the whole program aborting.
     fn resolve_args(&self, args: Vec<CelValue>) -> Result<Vec<CelValue>, CelError> {
         let mut arg_values = Vec::new();
         for arg in args.into_iter() {
